@@ -136,9 +136,18 @@ class TaskStub(FutureStub):
 class TransportStub(StubObj):
     def __init__(self, label="transport", closing=False):
         self.closing = closing
+        self.closing0 = closing  # value at creation (for `old` in contracts)
         self.label = label
         self.tid = _nid()
         self.protocol = None
+
+    @property
+    def f_closing(self):
+        return self.closing
+
+    @property
+    def f_closing0(self):
+        return self.closing0
 
     def m_is_closing(self, it):
         return self.closing
@@ -258,6 +267,7 @@ class LoopStub(StubObj):
     def m_time(self, it):
         t = it.ctx.fresh("loop_time", z3.RealSort())
         it.ctx.assume(t >= 0)
+        it.ctx.trace.append(("loop_time", SReal(t)))
         return SReal(t)
 
     def m_call_at(self, it, when, cb, *args):
@@ -313,3 +323,158 @@ def install(env):
         "Future": FutureStub, "Task": TaskStub, "Transport": TransportStub, "Lock": LockStub, "Semaphore": SemaphoreStub,
         "Loop": LoopStub, "Timer": TimerStub, "get_loop": get_loop,
     }
+
+
+# ----------------------------------------------------------------------------------------------------
+# Futures as references into a ghost heap (unbounded collections of futures, e.g. result_cbs).
+#   ghost["fut_state"] : Array Int -> Int   0 pending, 1 result, 2 exception, 3 cancelled
+#   ghost["fut_val"]   : Array Int -> Int   identity of the result value / kind of the exception
+#   ghost["fut_alloc"] : Int                references >= fut_alloc are not allocated yet
+# Exception kinds: 1 asyncio.TimeoutError, 2 AccessoryDisconnectedError, 3 other.
+
+from .values import SArr, Int as _IntSort, SOpaque  # noqa: E402
+
+PENDING, RESULT, EXCEPTION, CANCELLED = 0, 1, 2, 3
+EXC_TIMEOUT, EXC_DISCONNECTED, EXC_OTHER = 1, 2, 3
+
+
+def heap_init(it):
+    g = it.ctx.ghost
+    if "fut_state" not in g:
+        g["fut_state"] = SArr(it.ctx.fresh("fut_state", z3.ArraySort(z3.IntSort(), z3.IntSort())), _IntSort, _IntSort)
+        g["fut_val"] = SArr(it.ctx.fresh("fut_val", z3.ArraySort(z3.IntSort(), z3.IntSort())), _IntSort, _IntSort)
+        a = it.ctx.fresh("fut_alloc", z3.IntSort())
+        it.ctx.assume(a >= 0)
+        g["fut_alloc"] = SInt(a)
+        g["values"] = {}
+    return g
+
+
+def value_id(it, v):
+    """an integer identity for an arbitrary result value (objects by identity)"""
+    g = it.ctx.ghost
+    tab = g.setdefault("values", {})
+    for k, (obj, _) in tab.items():
+        if obj is v:
+            return z3.IntVal(k)
+    k = len(tab) + 1
+    tab[k] = (v, None)
+    return z3.IntVal(k)
+
+
+def exc_kind(e):
+    from aiohomekit.exceptions import AccessoryDisconnectedError
+
+    cls = e.cls if isinstance(e, SObj) else (e if isinstance(e, type) else type(e))
+    if issubclass(cls, asyncio.TimeoutError):
+        return EXC_TIMEOUT
+    if issubclass(cls, AccessoryDisconnectedError):
+        return EXC_DISCONNECTED
+    return EXC_OTHER
+
+
+class SymFuture(StubObj):
+    """a future identified by a (possibly symbolic) reference into the ghost heap"""
+
+    pytype = asyncio.Future
+
+    def __init__(self, ref):
+        self.ref = ref  # z3 Int term
+        self.f_ref = SInt(ref)
+
+    def _st(self, it):
+        return z3.Select(it.ctx.ghost["fut_state"].term, self.ref)
+
+    def m_done(self, it):
+        return ops.mk_bool(self._st(it) != PENDING)
+
+    def m_cancelled(self, it):
+        return ops.mk_bool(self._st(it) == CANCELLED)
+
+    def _set(self, it, st, val):
+        g = it.ctx.ghost
+        it.require(self._st(it) == PENDING, asyncio.InvalidStateError, "invalid state")
+        g["fut_state"].term = z3.Store(g["fut_state"].term, self.ref, z3.IntVal(st))
+        g["fut_val"].term = z3.Store(g["fut_val"].term, self.ref, val)
+
+    def m_set_result(self, it, v):
+        self._set(it, RESULT, value_id(it, v))
+        it.ctx.trace.append(("set_result", self, v))
+
+    def m_set_exception(self, it, e):
+        self._set(it, EXCEPTION, z3.IntVal(exc_kind(e)))
+        it.ctx.trace.append(("set_exception", self, e))
+
+    def m_cancel(self, it, msg=None):
+        g = it.ctx.ghost
+        if it.ctx.branch(self._st(it) == PENDING):
+            g["fut_state"].term = z3.Store(g["fut_state"].term, self.ref, z3.IntVal(CANCELLED))
+            return True
+        return False
+
+    def sym_compare(self, it, op, other):
+        import ast as _ast
+
+        if isinstance(op, (_ast.Eq, _ast.Is)):
+            return ops.mk_bool(self.ref == other.ref) if isinstance(other, SymFuture) else False
+        if isinstance(op, (_ast.NotEq, _ast.IsNot)):
+            return ops.mk_bool(self.ref != other.ref) if isinstance(other, SymFuture) else True
+        raise Unsupported("ordering of futures")
+
+    def sym_await(self, it):
+        pol = getattr(it.top_contract, "await_policy", None)
+        if pol is None:
+            raise Unsupported("await of a heap future without Contract.await_policy")
+        if isinstance(pol, staticmethod):
+            pol = pol.__func__
+        return pol(it, self)
+
+    def sym_truth(self, it):
+        return True
+
+
+class FutRefSort:
+    """element sort of a symbolic list of futures: boxed as the Int reference"""
+
+    name = "FutRef"
+
+    def z3sort(self):
+        return z3.IntSort()
+
+    def box(self, v):
+        if isinstance(v, SymFuture):
+            return v.ref
+        raise Unsupported(f"box FutRef from {v!r}")
+
+    def unbox(self, t):
+        return SymFuture(t)
+
+    def fresh(self, mk, name):
+        return self.unbox(mk(name, self.z3sort()))
+
+
+from .values import Sort as _Sort  # noqa: E402
+
+FutRef = type("FutRefSortT", (FutRefSort, _Sort), {})()
+
+
+def new_heap_future(it):
+    g = heap_init(it)
+    ref = g["fut_alloc"].term
+    g["fut_alloc"] = SInt(z3.simplify(ref + 1))
+    g["fut_state"].term = z3.Store(g["fut_state"].term, ref, z3.IntVal(PENDING))
+    f = SymFuture(ref)
+    it.ctx.trace.append(("create_future", f))
+    return f
+
+
+_old_create = LoopStub.m_create_future
+
+
+def _create_future(self, it):
+    if "fut_state" in it.ctx.ghost:
+        return new_heap_future(it)
+    return _old_create(self, it)
+
+
+LoopStub.m_create_future = _create_future
